@@ -4009,6 +4009,8 @@ impl<'store> QueryIter<'store> {
             */
             match self.init_state() {
                 Err(e) => {
+                    #[cfg(stam_verif)]
+                    crate::verif_hooks::note_query_error(&e);
                     eprintln!("STAM Query error: {}", e);
                     return StateStackStatus::Invalid;
                 }
